@@ -18,8 +18,11 @@ PAT = "^_p_"
 TRIGGER = ":keyword"
 
 
+PREFIX = "_p_"
+
+
 def subst(s, i):
-    return s.replace("@", "n%d" % i)
+    return s.replace("@", "n%d" % i).replace("_p_", PREFIX)
 
 
 def casing(name, rng):
@@ -90,11 +93,12 @@ def make_settings(inc=None, pats=None, trigger=TRIGGER, **rst):
     for f, v in (inc or {}).items():
         kw["include_undocumented_" + f] = bool(v)
     pats = pats or {}
+    pat = "^" + PREFIX
     return Settings(input=InputSettings(
         kwargs_doc_trigger_string=trigger,
-        function_parameter_name_strip_regex=PAT if pats.get("f") else "",
-        macro_parameter_name_strip_regex=PAT if pats.get("m") else "",
-        member_parameter_name_strip_regex=PAT if pats.get("x") else "", **kw), rst=RSTSettings(**rst))
+        function_parameter_name_strip_regex=pat if pats.get("f") else "",
+        macro_parameter_name_strip_regex=pat if pats.get("m") else "",
+        member_parameter_name_strip_regex=pat if pats.get("x") else "", **kw), rst=RSTSettings(**rst))
 
 
 def run_real(src, settings, title="t", module="t"):
